@@ -220,7 +220,7 @@ func (m *Map) Drop(seqno uint16, pid uint16) bool {
 	m.mu.Lock()
 	defer m.mu.Unlock()
 
-	if seqno != m.next {
+	if !m.started || seqno != m.next {
 		return false
 	}
 
